@@ -205,6 +205,12 @@ def run(ctx):
              "and not a huge position; the compiler-emitted counts are the reviewed exceptions")
     rule_f(ctx, cr)
     rule_g(ctx, cr)
+    ctx.rule("C07.h", "the string functions of the built-in table (names ending in $, LEN, ASC, "
+             "VAL, INSTR) reach the handler of the same name with the arity the handler takes "
+             "(see C02.h)")
+    from rules import c02
+    c02.function_table(ctx, cr, "C07.h",
+                       lambda n: n.endswith("$") or n in ("LEN", "ASC", "VAL", "INSTR"))
     common.selftest(ctx, "C07.a", ["raw_slice_from_number"], lambda col, f: check_slices(col, f))
     common.selftest(ctx, "C07.d", ["find_sentinel"], lambda col, f: rule_d(col, None, [f]))
 
